@@ -1641,6 +1641,9 @@ class ListProxy(list):
         if isinstance(index, (int, slice)):
             if self._parameter.names:
                 self._warn('[index] = object')
+            if isinstance(index, slice):
+                # The iterable is consumed twice below
+                object = list(object)
             with self._trigger():
                 super().__setitem__(index, object)
                 self._parameter._objects[index] = object
@@ -1688,6 +1691,8 @@ class ListProxy(list):
     def extend(self, objects):
         if self._parameter.names:
             self._warn('.append')
+        # The iterable is consumed twice below
+        objects = list(objects)
         with self._trigger():
             super().extend(objects)
             self._parameter._objects.extend(objects)
@@ -1739,6 +1744,9 @@ class ListProxy(list):
 
     def remove(self, object):
         with self._trigger():
+            # names are pruned by identity, so use the stored element
+            # rather than the (possibly only equal) argument
+            object = super().__getitem__(super().index(object))
             super().remove(object)
             self._parameter._objects.remove(object)
             if self._parameter.names:
